@@ -91,9 +91,8 @@ def run(tier, t0):
     cases = [{"ident": p["ident"]} for p in idents] + [{"word": w} for w in WORDS]
     obs_i = C.qv_sharded(["dl-ident"], {"chars": CHARS}, cases, wd, shards=8, timeout=3000)
     # ---- whole relations: the queries of the relational engine (plain, and rewritten)
-    relengine.run(tier)
+    rel_cases = relengine.run(tier)["case_list"]
     rng = random.Random(C.seed() + 17)
-    rel_cases = C.read_ndjson(os.path.join(C.WORK, "rel", "cases.ndjson")) if os.path.exists(os.path.join(C.WORK, "rel", "cases.ndjson")) else []
     by_sql = {}
     for c in rel_cases:
         by_sql.setdefault(c["sql"], c)
@@ -181,7 +180,11 @@ def run(tier, t0):
                 detail = "ungrouped-reduce-of-FIRST"
             elif judge == "SameTypes":
                 td = o.get("type_diff") or {}
-                detail = f"{norm_type(td.get('before'))}->{norm_type(td.get('after'))}"
+                if "THEN 1 ELSE 0 END" in (o.get("sql") or ""):
+                    # one family whatever column shows it first: a comparison written CASE WHEN .. THEN 1 ELSE 0 END reads back as a number
+                    detail = "comparison-written-as-case-when"
+                else:
+                    detail = f"{norm_type(td.get('before'))}->{norm_type(td.get('after'))}"
             elif judge == "RenderSucceeds":
                 detail = norm_err(o["render"])
             else:
